@@ -2,6 +2,7 @@
 from .. import anchors as A
 from .. import worldrules as W
 from .. import poolrules as R
+from .. import positives as P
 from . import c12
 
 PROP = "C08"
@@ -29,3 +30,5 @@ def run(ctx, report):
         report.guard("C08.CLONE", W.clone_rule, ctx, report, "C08.CLONE", facts, config)
         report.guard("C08.UNSAFE", W.unsafe_inventory, ctx, report, "C08.UNSAFE", facts, config)
         report.guard("C08.RELEASE", R.release, ctx, report, "C08.RELEASE", facts, config)
+    P.check(ctx, report, "C08.GATE", ["cell_as_ptr"])
+    P.check(ctx, report, "C08.RELEASE", ["forget_guard", "manually_drop_guard", "leak_guard"])
